@@ -1,0 +1,57 @@
+//go:build verif
+
+package tarfs
+
+import (
+	"io"
+	"sort"
+
+	apkfs "chainguard.dev/apko/pkg/apk/fs"
+)
+
+// VerifDump copies the node graph for the verification harness.
+func VerifDump(m *memFS) *apkfs.VerifNode {
+	seen := map[*node]int{}
+	var rec func(n *node) *apkfs.VerifNode
+	rec = func(n *node) *apkfs.VerifNode {
+		if id, ok := seen[n]; ok {
+			return &apkfs.VerifNode{ID: id, Seen: true}
+		}
+		id := len(seen)
+		seen[n] = id
+		v := &apkfs.VerifNode{ID: id, Dir: n.dir, Mode: uint32(n.mode), UID: n.uid, GID: n.gid, MTime: n.modTime.Unix(),
+			LinkCount: n.linkCount, Data: n.data, Target: n.linkTarget, Major: n.major, Minor: n.minor, Xattrs: n.xattrs}
+		if n.te != nil {
+			v.HasTe = true
+			v.TeSize = n.te.header.Size
+			v.TeChecksum = n.te.checksum
+			if n.te.pkg != nil {
+				v.TePkg = n.te.pkg.Name
+			}
+			if n.te.tfs != nil {
+				if f, err := n.te.tfs.Open(n.te.header.Name); err == nil {
+					v.TeContent, _ = io.ReadAll(f)
+					f.Close()
+				}
+			}
+		}
+		if len(n.hardlinks) > 0 {
+			v.Hardlinks = map[string]string{}
+			for k, h := range n.hardlinks {
+				v.Hardlinks[k] = h.Linkname
+			}
+		}
+		for name := range n.children {
+			v.Names = append(v.Names, name)
+		}
+		sort.Strings(v.Names)
+		for _, name := range v.Names {
+			v.Kids = append(v.Kids, rec(n.children[name]))
+		}
+		return v
+	}
+	return rec(m.tree)
+}
+
+// VerifMemFS exposes the concrete type returned by New to the harness.
+type VerifMemFS = memFS
